@@ -14239,9 +14239,12 @@ O_<TN_, TA_, TH_, TS_...>::deepForwardActive(Control& control,
 	HFSM2_ASSERT(control._core.registry.isActive(HEAD_ID));
 
 	const ProngCBits requested = orthoRequested(static_cast<const Control&>(control));
-	HFSM2_ASSERT(!!requested);
 
-	SubStates::wideForwardActive(control, request, requested);
+	if (requested)
+		SubStates::wideForwardActive(control, request, requested);
+	else
+		// no prong addressed: this region itself is the destination
+		deepRequest					(control, request);
 }
 
 template <typename TN_, typename TA_, typename TH_, typename... TS_>
